@@ -1457,14 +1457,14 @@ proof!(c05_neg_soa_short, 7, {
 
 // @harness name=c05_neg_soa_badname props=C05 panics=C05,C01 tier=thorough mem=2 t=900 kani="--no-assertion-reach-checks" cbmc="--max-field-sensitivity-array-size 256 --unwindset _RNCNvMs_NtNtCskjFBwtpsoHr_8quandary7message6writerNtB6_6Writer30write_compressed_unhinted_name0Ba_.0:4,_RNCNvMs_NtNtCskjFBwtpsoHr_8quandary7message6writerNtB6_6Writer30write_compressed_unhinted_names_0Ba_.0:4,_RNvMs_NtNtCskjFBwtpsoHr_8quandary7message6writerNtB4_6Writer30write_compressed_unhinted_name.0:4,_RNvMs_NtNtCskjFBwtpsoHr_8quandary7message6writerNtB4_6Writer30write_compressed_unhinted_name.1:4,_RINvNvMNtNtCs8xvirJzNMvV_4core5slice5asciiSh27eq_ignore_ascii_case_chunks21eq_ignore_ascii_innerKj10_ECskjFBwtpsoHr_8quandary.0:3,_RNvMNtNtCs8xvirJzNMvV_4core5slice5asciiSh27eq_ignore_ascii_case_simpleCskjFBwtpsoHr_8quandary.0:3,_RINvMNtNtCs8xvirJzNMvV_4core5slice5asciiSh27eq_ignore_ascii_case_chunksKj10_ECskjFBwtpsoHr_8quandary.0:3,_RNvNtNtCskjFBwtpsoHr_8quandary4name4wire23parse_uncompressed_name.0:5,_RNvMs_NtCskjFBwtpsoHr_8quandary4nameNtB4_4Name15initialize_into.0:5,_RINvNtCs8xvirJzNMvV_4core3ptr9drop_glueSTjINtNtCs6xMQmN1AWUs_5alloc5boxed3BoxNtNtCskjFBwtpsoHr_8quandary4name4NameEEEB1h_.0:3,_RINvNtNtCskjFBwtpsoHr_8quandary6server5query11do_referralNtNtB2_10kani_query8MockZoneEB6_.0:2,_RINvNtNtCskjFBwtpsoHr_8quandary6server5query11do_referralNtNtB2_10kani_query8MockZoneEB6_.1:2,_RINvNtNtCskjFBwtpsoHr_8quandary6server5query11do_referralNtNtB2_10kani_query8MockZoneEB6_.2:2" stubs="M1,T0"
 //   fn="Server::handle_non_axfr_query,answer,add_negative_caching_soa,read_soa_minimum,Name::validate_uncompressed"
-//   bound="UDP, limit 64; NoRecords; SOA RDATA of 22 octets whose MNAME starts with a label length octet >= 64 (symbolic: compression pointers and reserved label types), and one whose RNAME label runs past the end; unwind 7"
-//   sym="first octet in 64..=255"
+//   bound="UDP, limit 64; NoRecords; three SOA RDATA of 22 octets: MNAME starting with label length 64 (too long), MNAME starting with 0xc0 (a compression pointer), RNAME whose label runs past the end; unwind 7"
+//   sym="SOA TTL"
 proof!(c05_neg_soa_badname, 7, {
-    let b: u8 = kani::any();
-    kani::assume(b >= 64);
     let l = 22u16.to_ne_bytes();
-    let bad_mname = [l[0], l[1], b, 0, 0, 0, 0, 0, 0, 0, 0, 0, 0, 0, 0, 0, 0, 0, 0, 0, 0, 0, 0, 0];
-    bad_soa(true, &bad_mname, Out::NoRecords);
+    let long_label = [l[0], l[1], 64, 0, 0, 0, 0, 0, 0, 0, 0, 0, 0, 0, 0, 0, 0, 0, 0, 0, 0, 0, 0, 0];
+    bad_soa(true, &long_label, Out::NoRecords);
+    let pointer = [l[0], l[1], 0xc0, 0, 0, 0, 0, 0, 0, 0, 0, 0, 0, 0, 0, 0, 0, 0, 0, 0, 0, 0, 0, 0];
+    bad_soa(true, &pointer, Out::NoRecords);
     let bad_rname = [l[0], l[1], 0, 63, 0, 0, 0, 0, 0, 0, 0, 0, 0, 0, 0, 0, 0, 0, 0, 0, 0, 0, 0, 0];
     bad_soa(true, &bad_rname, Out::NoRecords);
 });
@@ -1736,7 +1736,7 @@ proof!(c05_cname_out_of_zone, 7, {
     kani::cover!(true, "CNAME leaving the zone");
 });
 
-// @harness name=c05_cname_chain2 props=C05 panics=C05,C01 tier=thorough mem=3 t=1800 kani="--no-assertion-reach-checks" cbmc="--max-field-sensitivity-array-size 256 --unwindset _RNCNvMs_NtNtCskjFBwtpsoHr_8quandary7message6writerNtB6_6Writer30write_compressed_unhinted_name0Ba_.0:4,_RNCNvMs_NtNtCskjFBwtpsoHr_8quandary7message6writerNtB6_6Writer30write_compressed_unhinted_names_0Ba_.0:4,_RNvMs_NtNtCskjFBwtpsoHr_8quandary7message6writerNtB4_6Writer30write_compressed_unhinted_name.0:4,_RNvMs_NtNtCskjFBwtpsoHr_8quandary7message6writerNtB4_6Writer30write_compressed_unhinted_name.1:4,_RINvNvMNtNtCs8xvirJzNMvV_4core5slice5asciiSh27eq_ignore_ascii_case_chunks21eq_ignore_ascii_innerKj10_ECskjFBwtpsoHr_8quandary.0:3,_RNvMNtNtCs8xvirJzNMvV_4core5slice5asciiSh27eq_ignore_ascii_case_simpleCskjFBwtpsoHr_8quandary.0:3,_RINvMNtNtCs8xvirJzNMvV_4core5slice5asciiSh27eq_ignore_ascii_case_chunksKj10_ECskjFBwtpsoHr_8quandary.0:3,_RNvNtNtCskjFBwtpsoHr_8quandary4name4wire23parse_uncompressed_name.0:5,_RNvMs_NtCskjFBwtpsoHr_8quandary4nameNtB4_4Name15initialize_into.0:5,_RINvNtCs8xvirJzNMvV_4core3ptr9drop_glueSTjINtNtCs6xMQmN1AWUs_5alloc5boxed3BoxNtNtCskjFBwtpsoHr_8quandary4name4NameEEEB1h_.0:3,_RINvNtNtCskjFBwtpsoHr_8quandary6server5query11do_referralNtNtB2_10kani_query8MockZoneEB6_.0:2,_RINvNtNtCskjFBwtpsoHr_8quandary6server5query11do_referralNtNtB2_10kani_query8MockZoneEB6_.1:2,_RINvNtNtCskjFBwtpsoHr_8quandary6server5query11do_referralNtNtB2_10kani_query8MockZoneEB6_.2:2" stubs="M1,T0"
+// @harness name=c05_cname_chain2 props=C05 panics=C05,C01 tier=thorough mem=8 t=2400 kani="--no-assertion-reach-checks" cbmc="--max-field-sensitivity-array-size 256 --unwindset _RNCNvMs_NtNtCskjFBwtpsoHr_8quandary7message6writerNtB6_6Writer30write_compressed_unhinted_name0Ba_.0:4,_RNCNvMs_NtNtCskjFBwtpsoHr_8quandary7message6writerNtB6_6Writer30write_compressed_unhinted_names_0Ba_.0:4,_RNvMs_NtNtCskjFBwtpsoHr_8quandary7message6writerNtB4_6Writer30write_compressed_unhinted_name.0:4,_RNvMs_NtNtCskjFBwtpsoHr_8quandary7message6writerNtB4_6Writer30write_compressed_unhinted_name.1:4,_RINvNvMNtNtCs8xvirJzNMvV_4core5slice5asciiSh27eq_ignore_ascii_case_chunks21eq_ignore_ascii_innerKj10_ECskjFBwtpsoHr_8quandary.0:3,_RNvMNtNtCs8xvirJzNMvV_4core5slice5asciiSh27eq_ignore_ascii_case_simpleCskjFBwtpsoHr_8quandary.0:3,_RINvMNtNtCs8xvirJzNMvV_4core5slice5asciiSh27eq_ignore_ascii_case_chunksKj10_ECskjFBwtpsoHr_8quandary.0:3,_RNvNtNtCskjFBwtpsoHr_8quandary4name4wire23parse_uncompressed_name.0:5,_RNvMs_NtCskjFBwtpsoHr_8quandary4nameNtB4_4Name15initialize_into.0:5,_RINvNtCs8xvirJzNMvV_4core3ptr9drop_glueSTjINtNtCs6xMQmN1AWUs_5alloc5boxed3BoxNtNtCskjFBwtpsoHr_8quandary4name4NameEEEB1h_.0:3,_RINvNtNtCskjFBwtpsoHr_8quandary6server5query11do_referralNtNtB2_10kani_query8MockZoneEB6_.0:2,_RINvNtNtCskjFBwtpsoHr_8quandary6server5query11do_referralNtNtB2_10kani_query8MockZoneEB6_.1:2,_RINvNtNtCskjFBwtpsoHr_8quandary6server5query11do_referralNtNtB2_10kani_query8MockZoneEB6_.2:2" stubs="M1,T0"
 //   fn="Server::handle_non_axfr_query,answer,do_cname,follow_cname_1,follow_cname_2"
 //   bound="UDP, limit 64; question . A IN; . CNAME a., a. CNAME b., b. A; unwind 7"
 //   sym="3 TTLs, 4 RDATA octets"
@@ -1755,7 +1755,7 @@ proof!(c05_cname_loop1, 7, {
     kani::cover!(true, "self loop answered");
 });
 
-// @harness name=c05_cname_loop2 props=C05 panics=C05,C01 tier=thorough mem=2 t=1800 kani="--no-assertion-reach-checks" cbmc="--max-field-sensitivity-array-size 256 --unwindset _RNCNvMs_NtNtCskjFBwtpsoHr_8quandary7message6writerNtB6_6Writer30write_compressed_unhinted_name0Ba_.0:4,_RNCNvMs_NtNtCskjFBwtpsoHr_8quandary7message6writerNtB6_6Writer30write_compressed_unhinted_names_0Ba_.0:4,_RNvMs_NtNtCskjFBwtpsoHr_8quandary7message6writerNtB4_6Writer30write_compressed_unhinted_name.0:4,_RNvMs_NtNtCskjFBwtpsoHr_8quandary7message6writerNtB4_6Writer30write_compressed_unhinted_name.1:4,_RINvNvMNtNtCs8xvirJzNMvV_4core5slice5asciiSh27eq_ignore_ascii_case_chunks21eq_ignore_ascii_innerKj10_ECskjFBwtpsoHr_8quandary.0:3,_RNvMNtNtCs8xvirJzNMvV_4core5slice5asciiSh27eq_ignore_ascii_case_simpleCskjFBwtpsoHr_8quandary.0:3,_RINvMNtNtCs8xvirJzNMvV_4core5slice5asciiSh27eq_ignore_ascii_case_chunksKj10_ECskjFBwtpsoHr_8quandary.0:3,_RNvNtNtCskjFBwtpsoHr_8quandary4name4wire23parse_uncompressed_name.0:5,_RNvMs_NtCskjFBwtpsoHr_8quandary4nameNtB4_4Name15initialize_into.0:5,_RINvNtCs8xvirJzNMvV_4core3ptr9drop_glueSTjINtNtCs6xMQmN1AWUs_5alloc5boxed3BoxNtNtCskjFBwtpsoHr_8quandary4name4NameEEEB1h_.0:3,_RINvNtNtCskjFBwtpsoHr_8quandary6server5query11do_referralNtNtB2_10kani_query8MockZoneEB6_.0:2,_RINvNtNtCskjFBwtpsoHr_8quandary6server5query11do_referralNtNtB2_10kani_query8MockZoneEB6_.1:2,_RINvNtNtCskjFBwtpsoHr_8quandary6server5query11do_referralNtNtB2_10kani_query8MockZoneEB6_.2:2" stubs="M1,T0"
+// @harness name=c05_cname_loop2 props=C05 panics=C05,C01 tier=thorough mem=4 t=1800 kani="--no-assertion-reach-checks" cbmc="--max-field-sensitivity-array-size 256 --unwindset _RNCNvMs_NtNtCskjFBwtpsoHr_8quandary7message6writerNtB6_6Writer30write_compressed_unhinted_name0Ba_.0:4,_RNCNvMs_NtNtCskjFBwtpsoHr_8quandary7message6writerNtB6_6Writer30write_compressed_unhinted_names_0Ba_.0:4,_RNvMs_NtNtCskjFBwtpsoHr_8quandary7message6writerNtB4_6Writer30write_compressed_unhinted_name.0:4,_RNvMs_NtNtCskjFBwtpsoHr_8quandary7message6writerNtB4_6Writer30write_compressed_unhinted_name.1:4,_RINvNvMNtNtCs8xvirJzNMvV_4core5slice5asciiSh27eq_ignore_ascii_case_chunks21eq_ignore_ascii_innerKj10_ECskjFBwtpsoHr_8quandary.0:3,_RNvMNtNtCs8xvirJzNMvV_4core5slice5asciiSh27eq_ignore_ascii_case_simpleCskjFBwtpsoHr_8quandary.0:3,_RINvMNtNtCs8xvirJzNMvV_4core5slice5asciiSh27eq_ignore_ascii_case_chunksKj10_ECskjFBwtpsoHr_8quandary.0:3,_RNvNtNtCskjFBwtpsoHr_8quandary4name4wire23parse_uncompressed_name.0:5,_RNvMs_NtCskjFBwtpsoHr_8quandary4nameNtB4_4Name15initialize_into.0:5,_RINvNtCs8xvirJzNMvV_4core3ptr9drop_glueSTjINtNtCs6xMQmN1AWUs_5alloc5boxed3BoxNtNtCskjFBwtpsoHr_8quandary4name4NameEEEB1h_.0:3,_RINvNtNtCskjFBwtpsoHr_8quandary6server5query11do_referralNtNtB2_10kani_query8MockZoneEB6_.0:2,_RINvNtNtCskjFBwtpsoHr_8quandary6server5query11do_referralNtNtB2_10kani_query8MockZoneEB6_.1:2,_RINvNtNtCskjFBwtpsoHr_8quandary6server5query11do_referralNtNtB2_10kani_query8MockZoneEB6_.2:2" stubs="M1,T0"
 //   fn="Server::handle_non_axfr_query,answer,do_cname,follow_cname_1,follow_cname_2"
 //   bound="UDP, limit 64; question a. A IN; a. CNAME b., b. CNAME a.: SERVFAIL, no records, AA clear; unwind 7"
 //   sym="CNAME TTLs"
@@ -1764,7 +1764,7 @@ proof!(c05_cname_loop2, 7, {
     kani::cover!(true, "two-link loop answered");
 });
 
-// @harness name=c05_cname_loop2b props=C05 panics=C05,C01 tier=thorough mem=2 t=1800 kani="--no-assertion-reach-checks" cbmc="--max-field-sensitivity-array-size 256 --unwindset _RNCNvMs_NtNtCskjFBwtpsoHr_8quandary7message6writerNtB6_6Writer30write_compressed_unhinted_name0Ba_.0:4,_RNCNvMs_NtNtCskjFBwtpsoHr_8quandary7message6writerNtB6_6Writer30write_compressed_unhinted_names_0Ba_.0:4,_RNvMs_NtNtCskjFBwtpsoHr_8quandary7message6writerNtB4_6Writer30write_compressed_unhinted_name.0:4,_RNvMs_NtNtCskjFBwtpsoHr_8quandary7message6writerNtB4_6Writer30write_compressed_unhinted_name.1:4,_RINvNvMNtNtCs8xvirJzNMvV_4core5slice5asciiSh27eq_ignore_ascii_case_chunks21eq_ignore_ascii_innerKj10_ECskjFBwtpsoHr_8quandary.0:3,_RNvMNtNtCs8xvirJzNMvV_4core5slice5asciiSh27eq_ignore_ascii_case_simpleCskjFBwtpsoHr_8quandary.0:3,_RINvMNtNtCs8xvirJzNMvV_4core5slice5asciiSh27eq_ignore_ascii_case_chunksKj10_ECskjFBwtpsoHr_8quandary.0:3,_RNvNtNtCskjFBwtpsoHr_8quandary4name4wire23parse_uncompressed_name.0:5,_RNvMs_NtCskjFBwtpsoHr_8quandary4nameNtB4_4Name15initialize_into.0:5,_RINvNtCs8xvirJzNMvV_4core3ptr9drop_glueSTjINtNtCs6xMQmN1AWUs_5alloc5boxed3BoxNtNtCskjFBwtpsoHr_8quandary4name4NameEEEB1h_.0:3,_RINvNtNtCskjFBwtpsoHr_8quandary6server5query11do_referralNtNtB2_10kani_query8MockZoneEB6_.0:2,_RINvNtNtCskjFBwtpsoHr_8quandary6server5query11do_referralNtNtB2_10kani_query8MockZoneEB6_.1:2,_RINvNtNtCskjFBwtpsoHr_8quandary6server5query11do_referralNtNtB2_10kani_query8MockZoneEB6_.2:2" stubs="M1,T0"
+// @harness name=c05_cname_loop2b props=C05 panics=C05,C01 tier=thorough mem=4 t=1800 kani="--no-assertion-reach-checks" cbmc="--max-field-sensitivity-array-size 256 --unwindset _RNCNvMs_NtNtCskjFBwtpsoHr_8quandary7message6writerNtB6_6Writer30write_compressed_unhinted_name0Ba_.0:4,_RNCNvMs_NtNtCskjFBwtpsoHr_8quandary7message6writerNtB6_6Writer30write_compressed_unhinted_names_0Ba_.0:4,_RNvMs_NtNtCskjFBwtpsoHr_8quandary7message6writerNtB4_6Writer30write_compressed_unhinted_name.0:4,_RNvMs_NtNtCskjFBwtpsoHr_8quandary7message6writerNtB4_6Writer30write_compressed_unhinted_name.1:4,_RINvNvMNtNtCs8xvirJzNMvV_4core5slice5asciiSh27eq_ignore_ascii_case_chunks21eq_ignore_ascii_innerKj10_ECskjFBwtpsoHr_8quandary.0:3,_RNvMNtNtCs8xvirJzNMvV_4core5slice5asciiSh27eq_ignore_ascii_case_simpleCskjFBwtpsoHr_8quandary.0:3,_RINvMNtNtCs8xvirJzNMvV_4core5slice5asciiSh27eq_ignore_ascii_case_chunksKj10_ECskjFBwtpsoHr_8quandary.0:3,_RNvNtNtCskjFBwtpsoHr_8quandary4name4wire23parse_uncompressed_name.0:5,_RNvMs_NtCskjFBwtpsoHr_8quandary4nameNtB4_4Name15initialize_into.0:5,_RINvNtCs8xvirJzNMvV_4core3ptr9drop_glueSTjINtNtCs6xMQmN1AWUs_5alloc5boxed3BoxNtNtCskjFBwtpsoHr_8quandary4name4NameEEEB1h_.0:3,_RINvNtNtCskjFBwtpsoHr_8quandary6server5query11do_referralNtNtB2_10kani_query8MockZoneEB6_.0:2,_RINvNtNtCskjFBwtpsoHr_8quandary6server5query11do_referralNtNtB2_10kani_query8MockZoneEB6_.1:2,_RINvNtNtCskjFBwtpsoHr_8quandary6server5query11do_referralNtNtB2_10kani_query8MockZoneEB6_.2:2" stubs="M1,T0"
 //   fn="Server::handle_non_axfr_query,answer,do_cname,follow_cname_1,follow_cname_2"
 //   bound="UDP, limit 64; question a. A IN; a. CNAME b., b. CNAME b.: SERVFAIL, no records, AA clear; unwind 7"
 //   sym="CNAME TTLs"
